@@ -324,6 +324,9 @@ def run(chk):
         direct = [c for c in walk_no_nested(hf.node) if isinstance(c, ast.Call) and isinstance(c.func, ast.Attribute) and isinstance(c.func.value, ast.Name) and c.func.value.id in cvars]
         r3.expect(not direct, "HashClient.%s reaches clients only through the safe runner" % m, "HashClient.%s:direct-client-call" % m, "HashClient.%s calls `%s` outside _safely_run_func" % (m, node_src(direct[0]) if direct else ""), fn=hf)
     r3.floor("PooledClient read methods analysed", n_cov, 6)
+    from . import rules_C09 as _c09, report as _rep
+
+    _rep.include_rules(chk, r3, _c09, ("C09.R3",), "nothing that can fail runs on the way into a pooled read, outside its swallowing handler (inner clients raise, the pool's clean-up callback only closes)")
     r5 = chk.rule("C07.R5", "Client's read methods, evaluated end to end with ignore_exc set against 17 fault plans each (refused connection, failed send, time-out, close, error / garbage / malformed lines at every reply position, undeserialisable item): never raise, return the miss value")
     n5 = client_fault_rows(prog, r5)
     r5.floor("method x fault plan rows", n5, 90)
